@@ -49,12 +49,14 @@ W(n) == 1..n      \* weight of an alternative
 GNext ==
   \/ \E w \in Down : \E i \in W(IF Up = {} \/ Focus = "file" THEN 12 ELSE 3) : Do([t |-> "Open", w |-> w, q |-> PickPub(w)])
   \/ \E w \in Up : Do([t |-> "Close", w |-> w])
-  \/ \E w \in Up : \E i \in W(IF HasKs(S, w) THEN 2 ELSE 24) :
+  \* (fault focus: wallets with several keystores are where one call spans several keystores)
+  \/ \E w \in Up : \E i \in W(IF ~HasKs(S, w) THEN 24 ELSE IF Focus = "fault" /\ Cardinality(Present(S, w)) = 1 THEN 8 ELSE 2) :
         Do([t |-> "NewKs", w |-> w, p |-> PickPriv(w), s |-> FreeSeed(w), r |-> RS(Remarks)])
   \/ \E w \in Up : \E i \in W(3) : Live(w) /\ Do([t |-> "NextAddr", w |-> w, s |-> PickSeed(w), b |-> RS({0, 1}), n |-> RS(0..2)])
   \/ \E w \in Up : \E i \in W(3) : Live(w) /\ Do([t |-> "GenKey", w |-> w, s |-> PickSeed(w)])
   \/ \E w \in Up : Live(w) /\ Do([t |-> "Remark", w |-> w, s |-> PickSeed(w), r |-> RS(Remarks)])
-  \/ \E w \in Up : \E i \in W(2) : Live(w) /\ Do([t |-> "ChangePriv", w |-> w, old |-> PickPriv(w), new |-> IF Coin(4) THEN RS(Pass) ELSE FreshPass(w)])
+  \/ \E w \in Up : \E i \in W(IF Focus = "fault" /\ Cardinality(Present(S, w)) >= 2 THEN 6 ELSE 2) :
+        Live(w) /\ Do([t |-> "ChangePriv", w |-> w, old |-> PickPriv(w), new |-> IF Coin(4) THEN RS(Pass) ELSE FreshPass(w)])
   \/ \E w \in Up : \E i \in W(2) : Do([t |-> "ChangePub", w |-> w, old |-> PickPub(w), new |-> IF Coin(4) THEN RS(Pass) ELSE FreshPass(w)])
   \/ \E w \in Up : \E i \in W(IF Focus = "file" THEN 3 ELSE 1) : Live(w) /\ Do([t |-> "Delete", w |-> w, s |-> PickSeed(w), p |-> PickPriv(w)])
   \/ \E w \in Up : \E i \in W(IF Focus = "file" THEN 10 ELSE 1) : FreeFiles # {} /\ Live(w) /\
